@@ -67,6 +67,26 @@ module N =
     | Gt -> false
     | _ -> true
 
+  (** val ltb : coq_N -> coq_N -> bool **)
+
+  let ltb x y =
+    match compare x y with
+    | Lt -> true
+    | _ -> false
+
+  (** val even : coq_N -> bool **)
+
+  let even = function
+  | N0 -> true
+  | Npos p -> (match p with
+               | Coq_xO _ -> true
+               | _ -> false)
+
+  (** val odd : coq_N -> bool **)
+
+  let odd n =
+    negb (even n)
+
   (** val pos_div_eucl : positive -> coq_N -> coq_N * coq_N **)
 
   let rec pos_div_eucl a b =
@@ -100,6 +120,18 @@ module N =
 
   let modulo a b =
     snd (div_eucl a b)
+
+  (** val to_nat : coq_N -> nat **)
+
+  let to_nat = function
+  | N0 -> O
+  | Npos p -> Pos.to_nat p
+
+  (** val of_nat : nat -> coq_N **)
+
+  let of_nat = function
+  | O -> N0
+  | S n' -> Npos (Pos.of_succ_nat n')
 
   (** val eq_dec : coq_N -> coq_N -> bool **)
 
